@@ -58,7 +58,7 @@ class Spec(object):
 
 def gen_spec(rng, nstates=None, max_depth=8, nsignals=None, shape=None, p_init=0.45,
              p_react=0.5, clauses='mixed', fx_rate=0.0, fx_ops=('post_fifo', 'post_lifo'),
-             decline_bias=0.2, deep=False, tricky_names=0.3, p_vars=0.4, p_query=0.2, name_style=None, p_poke=0.15, p_swallow=0.0):
+             decline_bias=0.2, deep=False, tricky_names=0.3, p_vars=0.4, p_query=0.2, name_style=None, p_poke=0.15, p_swallow=0.0, p_mute=0.0):
   """draw a chart spec.  All randomness comes from rng."""
   if nstates is None:
     nstates = rng.randrange(2, 15)
@@ -168,6 +168,9 @@ def gen_spec(rng, nstates=None, max_depth=8, nsignals=None, shape=None, p_init=0
           s['react'][sig] = {'kind': 'decline'}
         elif r < decline_bias + 0.25:
           s['react'][sig] = {'kind': 'hook', 'fx': draw_fx() + plain_fx(True)}
+          if p_mute and rng.random() < p_mute:
+            # the customary do-nothing hook: a callback called `handled` that only returns HANDLED (masks the signal)
+            s['react'][sig] = {'kind': 'hook', 'fx': [], 'mute': True}
         else:
           s['react'][sig] = {'kind': 'trans', 'target': rng.choice(names), 'fx': draw_fx() + plain_fx(False)}
         if vars_ and rng.random() < 0.3:
@@ -285,6 +288,8 @@ def build_closure(spec, rec, spied=True, effects=None, malform=None):
             rec('decline', name, sn, None)
             return rs.UNHANDLED
         if k == 'hook':
+          if r.get('mute'):
+            return rs.HANDLED
           rec('hook', name, sn, None)
           b._fx(chart, e, r.get('fx'))
           rec('hook_end', name, sn, None)
@@ -353,12 +358,18 @@ def _callbacks(b, chart_ns):
             b.rec('decline', name, e.signal_name, None)
             return rs.UNHANDLED
           if inner['kind'] == 'hook':
+            if inner.get('mute'):
+              return rs.HANDLED
             b.rec('hook', name, e.signal_name, None)
             b._fx(chart, e, inner.get('fx'))
             return rs.HANDLED
           b.rec('trans', name, e.signal_name, inner['target'])
           b._fx(chart, e, inner.get('fx'))
           return chart.trans(chart_ns[inner['target']])
+      elif k == 'hook' and r.get('mute'):
+        def handled(chart, e):
+          return rs.HANDLED
+        return handled
       elif k == 'hook':
         def cb(chart, e):
           b.rec('hook', name, e.signal_name, None)
